@@ -10,10 +10,19 @@ SPEC = {
              "scheduler (the schedule token order is part of the case and is forced on the two relay goroutines). TCP: all "
              "pairs of short scripts (0-3 chunks, empty reads, EOF/error tails, tail fused with the last chunk) x ALL "
              "interleavings of the two goroutines; refused writes at every index, full close racing the other direction, "
-             "chunks around the 32 KiB copy buffer. UDP: every cut offset x every split position of short encodings with "
+             "chunks around the 32 KiB copy buffer. ENDPOINT KIND is a dimension of every TCP case: socket with CloseWrite / "
+             "iocopy.NewReadWriteCloser(conn, conn, closeFn) with reader = writer = one Close-only transport conn (exactly how "
+             "mapping/base.go, target_handler.go createTunnelRWC and socks5_tunnel.go build the tunnel side) / separate reader and "
+             "Close-only writer objects / writer with neither; all 16 kind pairs x all interleavings of the half-close orders, "
+             "the production pair (cw, same) on every second case of every other generator. UDP: every cut offset x every split position of short encodings with "
              "EOF and error tails, malformed/illegal-length and random streams, a flush-timer tick at every position of "
              "short datagram sequences, prefix/buffer size boundaries (255/256/65535/65536, half-full batch, 300 KB window), "
              "all interleavings of the two goroutines x every combination of endings (eof/err/blocked-until-closed). "
+             "SLOW SINKS: every Write of a fake endpoint can stay in progress (the double keeps a REFERENCE to the caller's "
+             "slice and copies it only when the scheduler lets the Write complete, as a conn under back-pressure does): "
+             "flush-in-progress (ticker / half-full / EOF flush) x datagram arrival x next flush trigger enumerated for short "
+             "event lists, slow UDP-socket writes x tunnel progress, slow TCP writes x the other direction running / "
+             "half-closing / being refused (all per-direction hold patterns, interleavings sampled in quick, wider in thorough). "
              "non-trivial = every case except corpus duplicates; distinct = distinct case strings"),
     "trusted_base": [
         "Lean 4.33 kernel; axioms propext, Classical.choice, Quot.sound only (audited per theorem on every run)",
@@ -25,7 +34,8 @@ SPEC = {
         "WF (UDP): datagrams carried by the encoding have 1 <= len <= 65535 (zero-length datagrams are dropped, a 65536-byte read is mis-encoded as length 0: outside WF, replayed)",
         "WF (UDP): not both sides block forever (then the relay rightly never returns)",
         "Writes to the UDP socket and to the tunnel succeed while the relay runs (write-error paths of iocopy.UDP are not modelled); TCP sinks refuse a whole Write (no short writes)",
-        "a schedule step is one loop iteration of one goroutine (Read .. next Read); the two directions share no state except through the endpoints",
+        "a schedule step is one loop iteration of one goroutine (Read .. next Read), or the begin / the end of a Write that stays in progress; the two directions share no state except through the endpoints",
+        "the real 20 ms flush ticker cannot be stopped: a run in which it fired outside the scheduled windows before a scheduled slow write is detected and repeated (stat reruns_unscheduled_tick)",
         "NoOp transformer (the rate limiter is C02's subject)",
     ],
 }
